@@ -83,6 +83,16 @@ def check_one(f):
             out.append(("parse-not-repeatable", f"parsing {s[:80]!r} twice gives different filters"))
     except Exception as e:
         out.append((f"second-use-exc:{norm_msg(e, 30)}", f"second str()/from_string raised {type(e).__name__}: {e}"))
+    if back == obj and isinstance(back, (sl.FilterAnd, sl.FilterOr, sl.FilterSubstrings)):
+        try:
+            (back.any if isinstance(back, sl.FilterSubstrings) else back.filters).append(b"edited" if isinstance(back, sl.FilterSubstrings) else sl.FilterPresent("edited-by-caller"))
+            again = sl.LDAPFilter.from_string(s)
+            if again != obj:
+                out.append(("parse-result-shared-with-earlier-parse", f"after the caller edited a previously parsed filter, parsing {s[:80]!r} again gives {str(av.a_filter(again))[:120]}"))
+            return out
+        except Exception as e:
+            out.append((f"second-use-exc:{norm_msg(e, 30)}", f"{type(e).__name__}: {e}"))
+            return out
     if back != obj:
         got = av.a_filter(back)
         if got == collapse_dn(f) and got != f:
